@@ -192,6 +192,24 @@ def gops? : List String → Option (List GOp)
 def gobsS (x : Outcome × List Call × NameObs) : String :=
   "|".intercalate [outS x.1, joinOr "," (x.2.1.map callS), nameObsS x.2.2]
 
+/-! ### p <fn> <arg>: an Object.* function with a non-object first argument -/
+def objFn? : String → Option ObjFn
+  | "getPrototypeOf" => some .getPrototypeOf | "getOwnPropertyDescriptor" => some .getOwnPropertyDescriptor
+  | "getOwnPropertyNames" => some .getOwnPropertyNames | "create" => some .create | "defineProperty" => some .defineProperty
+  | "defineProperties" => some .defineProperties | "seal" => some .seal | "freeze" => some .freeze
+  | "preventExtensions" => some .preventExtensions | "isSealed" => some .isSealed | "isFrozen" => some .isFrozen
+  | "isExtensible" => some .isExtensible | "keys" => some .keys | _ => none
+
+def primArg? : String → Option PrimArg
+  | "number" => some .number | "string" => some .string | "boolean" => some .boolean
+  | "undefined" => some .undefined | "null" => some .null | "missing" => some .missing | _ => none
+
+def primResS : PrimRes → String
+  | .typeError => "T" | .emptyArray => "arr0" | .object => "obj"
+
+/-- `Dev_getOwnPropertyNames_primitive`: Object.getOwnPropertyNames of a non-object returns [] -/
+def devPrim (f : ObjFn) : Bool := f == .getOwnPropertyNames
+
 def dedup : List String → List String
   | [] => []
   | x :: t => if (dedup t).contains x then dedup t else x :: dedup t
@@ -204,6 +222,11 @@ def handle (ws : List String) : String :=
     | some ops =>
       let dev := dedup (devRun [] ops)
       runS (run [] ops) ++ " " ++ runS (Spec.run [] ops) ++ " " ++ joinOr "," dev
+  | ["p", f, a] =>
+    match objFn? f, primArg? a with
+    | some f, some a =>
+      primResS (objFnPrim f a) ++ " " ++ primResS (Spec.objFnPrim f a) ++ " " ++ (if devPrim f then "getOwnPropertyNames_primitive" else "-")
+    | _, _ => "bad-op"
   | "g" :: toks =>
     match gops? toks with
     | none => "bad-op"
